@@ -2,7 +2,7 @@
    Only statements closed by `exact`, with their assumptions printed. *)
 From Coq Require Import List NArith Bool.
 From SV Require Import Reconciler.Retries Reconciler.Model Reconciler.RetriesProofs Reconciler.CommitProofs Reconciler.Refuted
-  Reconciler.RoundInv Reconciler.Runs Reconciler.TableWf.
+  Reconciler.RoundInv Reconciler.Runs Reconciler.TableWf Reconciler.Refresh.
 Import ListNotations.
 Open Scope N_scope.
 
@@ -116,6 +116,36 @@ Theorem C16_wur_only_after_attempted : forall cf st, reach cf st ->
     match sl with Live o _ => is_pending o = false | Dead _ r => Acall (fst st) pk r end.
 Proof. exact wur_only_after_attempted. Qed.
 Print Assumptions C16_wur_only_after_attempted.
+
+(* the refresher (reconciler.go refreshLoop) is the only other writer inside the library. "The backoff starts over
+   after the object changes or succeeds" - and not because the refresher came by: in every reachable state an
+   object with a queued update retry is left exactly as it is by the refresher's write transaction, whatever
+   (stale) snapshot the refresher took its (object, revision) pair from: the table is unchanged, so the next round
+   sees no change of that key, Clear is not called and the item keeps its retryAt and numRetries
+   (C16_numretries_only_grows, C16_retry_not_before_backoff). Timing of the sweep (UpdatedAt, RefreshInterval,
+   RefreshRateLimiter) is not modelled: (o, rev) is ANY Done object of ANY earlier snapshot. Checked on the
+   implementation by the directed probe `probe refreshbackoff` (!BAD:C16:re-attempt-...-after-failure). *)
+Theorem C16_refresher_never_restarts_a_backoff : forall cf e s snap o rev it, reach cf (e, s) ->
+  twf snap -> tstep snap (e_tab e) -> refresher_saw snap o rev ->
+  In it (q_items (k_ret s)) -> ri_del it = false -> ri_pk it = o_pk o ->
+  refresh_write (e_tab e) o rev = e_tab e.
+Proof. exact refresher_leaves_queued_retries_alone. Qed.
+Print Assumptions C16_refresher_never_restarts_a_backoff.
+
+(* the revision comparison is what this rests on: with `if ok` alone (seeded change S3-C16-2) the Error object
+   of a failing update (retry queued for time 60, numRetries 2) is overwritten with Refreshing at time 20, Update
+   is called again at once and the item is re-queued for time 40 with numRetries 1 *)
+Theorem C16_refresher_no_revision_check_refuted :
+  refresher_saw rf_snap rf_o rf_rev /\
+  t_live rf_err 1 = Some (mkObj 1 2 Error 5 0, 5) /\
+  e_now (fst rf_st1) = 20 /\ items_of (snd rf_st1) = [(1, 60, 2)] /\
+  t_live (refresh_write_nocheck rf_err rf_o) 1 = Some (mkObj 1 2 Refreshing 6 0, 6) /\
+  refresh_write rf_err rf_o rf_rev = rf_err /\
+  calls_of (fst (rf_next rf_err)) = [] /\ items_of (snd (rf_next rf_err)) = [(1, 60, 2)] /\
+  calls_of (fst (rf_next (refresh_write_nocheck rf_err rf_o))) = [(20, 0, 1, false)] /\
+  items_of (snd (rf_next (refresh_write_nocheck rf_err rf_o))) = [(1, 40, 1)].
+Proof. exact refresh_no_revision_check_refuted. Qed.
+Print Assumptions C16_refresher_no_revision_check_refuted.
 
 Example C16_nonvacuous :
   duration 10 80 1 = 20 /\ duration 10 80 5 = 80 /\
